@@ -237,6 +237,7 @@ def run(repo: Repo, L: Ledger, tier: str):
     _first_haplotype(repo, L)
     _unloc_flush(repo, L)
     _prefix_copies(repo, L)
+    _small_rules(repo, L)
 
 
 def _unloc_summary(repo, namer, meth, depth=0, _memo=None):
@@ -499,3 +500,70 @@ def _first_haplotype(repo, L):
     hs_init = [n for n in walk_shallow(cn.methods["__init__"].node) if isinstance(n, ast.Assign) and norm(n.targets[0]) == "self.haplotypes_seen"]
     ok3 = ok3 and len(hs_init) == 1 and isinstance(hs_init[0].value, ast.Dict)
     L.check(ok3, "R4", "ChrNamer.haplotypes_seen", "haplotypes recorded in a dict (insertion order) and handed to every group", "haplotypes are not recorded in first-seen order (dict) / not handed to ChrGroup unchanged", cn.module.relpath)
+
+
+def _small_rules(repo, L):
+    """R7 the chromosome namer is built with the configured prefix; R8 the chromosome-list CSV loop visits every assembly;
+    R9 the name-tag pattern classifies the documented examples."""
+    from ..fold import try_fold
+    from ..util import arg_for_param
+
+    L.rule("R7", "every ChrNamer is constructed with the builder's configured autosome prefix")
+    cn = repo.cls("ChrNamer")
+    init = cn.methods.get("__init__")
+    if init is None or len(init.params()) < 2:
+        raise AnalysisError("anchor ChrNamer.__init__(chr_prefix) vanished")
+    pname = init.params()[1]
+    n_sites = 0
+    for f in repo.functions.values():
+        for c in repo.calls_in(f):
+            if dotted(c.func) == "ChrNamer":
+                n_sites += 1
+                a = arg_for_param(c, init, pname, bound_self=True)
+                if a is None:
+                    L.fail("R7", f"{f.short}:ChrNamer()", f"ChrNamer is constructed without '{pname}': its default {norm(init.node.args.defaults[-1]) if init.node.args.defaults else '?'} names the chromosomes whatever --autosome-prefix says (SUPER_1 instead of <prefix>1, and the same for unlocs and the CSV)", f.loc(c), witness={"option": "-c chr"})
+                else:
+                    ok = "autosome_prefix" in norm(a) or "chr_prefix" in norm(a)
+                    L.check(ok, "R7", f"{f.short}:ChrNamer()", "prefix argument is the configured autosome prefix", f"ChrNamer is given '{norm(a)}' as prefix, not the configured autosome prefix", f.loc(c))
+    if n_sites == 0:
+        raise AnalysisError("no ChrNamer construction site found")
+
+    L.rule("R8", "the chromosome-list CSV loop visits every output assembly")
+    wc = repo.try_func("write_chr_csv_files", "pretext_to_asm")
+    if wc is None:
+        raise AnalysisError("anchor pretext_to_asm.write_chr_csv_files vanished")
+    loops = [n for n in wc.node.body if isinstance(n, ast.For)]
+    if len(loops) != 1:
+        raise AnalysisError("write_chr_csv_files: loop over the output assemblies not found")
+    early = [x for x in walk_shallow(loops[0]) if isinstance(x, ast.Break | ast.Return)]
+    L.check(not early, "R8", wc.short, "no break/return inside the loop over the assemblies", f"the loop over the output assemblies is left by '{norm(early[0]) if early else ''}': curated assemblies listed after a non-curated one (e.g. the contaminants) get no chromosome-list CSV", wc.loc(early[0]) if early else wc.loc())
+
+    L.rule("R9", "the chromosome-name tag pattern accepts the documented kinds of name tag and nothing that is a haplotype or routing tag")
+    namer = repo.cls("ScaffoldNamer")
+    mk = namer.methods.get("make_scaffold_name")
+    pats = []
+    for f in [mk, *[m for m in repo.functions.values() if m.module is mk.module and m.cls is None]]:
+        for c in walk_shallow(f.node):
+            if isinstance(c, ast.Call) and (dotted(c.func) or "") in ("re.fullmatch", "re.match") and len(c.args) == 2:
+                pat = try_fold(c.args[0], default=None)
+                if isinstance(pat, str) and "IVX" in pat:
+                    pats.append((f, c, pat, dotted(c.func)))
+    if len(pats) != 1:
+        raise AnalysisError(f"make_scaffold_name: the chromosome-name tag pattern was not found as one constant regex ({len(pats)} candidates)")
+    f, c, pat, how = pats[0]
+    import re as _re
+
+    try:
+        rx = _re.compile(pat)
+    except _re.error as e:
+        raise AnalysisError(f"name-tag pattern does not compile: {e}") from e
+    match = rx.fullmatch if how == "re.fullmatch" else (lambda s_: (m_ := rx.match(s_)) and m_.end() == len(s_) and m_)
+    accept = ["X", "Y", "Z", "W", "B", "X1", "X2", "Z1", "B12", "A123", "I", "II", "III", "IV", "V", "X_X", "I_II", "2RL", "3R", "12AB"]
+    reject = ["Hap1", "hap2", "HAP1", "Target", "Primary", "Painted", "Contaminant", "Haplotig", "Unloc", "FalseDuplicate", "Singleton", "x", "12", "", "X-1", "chrX"]
+    bad_a = [t for t in accept if not match(t)]
+    bad_r = [t for t in reject if match(t)]
+    L.check(
+        not bad_a and not bad_r, "R9", f"{f.short}:name-tag-pattern", f"{len(accept)} name tags accepted, {len(reject)} other tags rejected (pattern {pat!r})",
+        (f"the tag pattern {pat!r} does not recognise {bad_a[:3]} as chromosome names: such a tag is then taken for a haplotype, the scaffold is not named <prefix><tag> and lands in a spurious assembly" if bad_a else f"the tag pattern {pat!r} takes {bad_r[:3]} for chromosome names"),
+        f.loc(c), witness={"tags": (bad_a or bad_r)[:3]},
+    )
